@@ -105,6 +105,17 @@ func init() {
 		deepCase{"map-that-contains-itself-emitted", "action", "ecmascript", `var m = new Map(); m.set("a", m); _.out({m: m}); return _.bindings;`})
 }
 
+// a returned value that is not an object is turned down - whatever it contains: an array
+// that contains itself, an array with shared substructure, a million levels of arrays
+func init() {
+	deepCases = append(deepCases,
+		deepCase{"array-that-contains-itself-returned", "action", "ecmascript", `var a = []; a.push(a); return a;`},
+		deepCase{"array-that-contains-itself-returned-by-guard", "guard", "ecmascript", `var a = []; a.push(a); return a;`},
+		deepCase{"array-with-shared-substructure-returned", "action", "ecmascript", dagArr + ` return o;`},
+		deepCase{"deep-array-returned-as-the-result", "action", "ecmascript", deepArr + ` return o;`},
+		deepCase{"object-cycle-below-an-array-returned", "action", "ecmascript", `var o = {}; o.self = o; return [o];`})
+}
+
 // the Stdio coupling with a state file rewritten after every message (siostd -state-out F
 // -write-state-msg): a machine that leaves something in its bindings that cannot be
 // written (NaN) must not take the host down
